@@ -193,10 +193,10 @@ theorem bCreateOk_sum {L : List Addr} (hn : L.Nodup) (b : BState) {caller a : Ad
 theorem binv_of_same {db : Db} {L B} {s s' : JState} (h : BInv L B (absB db s)) (hs : Same db s s') :
     BInv L B (absB db s') := by rw [hs.absB]; exact h
 
-/-- one step of any history keeps the invariant -/
-theorem step_inv {db : Db} {L : List Addr} {B : Addr → Nat} {r r' : Run} {op : Op} (hn : L.Nodup)
-    (hB : sumOver L B < W) (hinv : BInv L B (absB db r.js)) (hL : ∀ a ∈ opAddrs op, a ∈ L)
-    (hf : Funded db r op) (h : step db r op = some r') : BInv L B (absB db r'.js) := by
+/-- one step of any history keeps the invariant (local form of the hypotheses) -/
+theorem step_inv_local {db : Db} {L : List Addr} {B : Addr → Nat} {r r' : Run} {op : Op}
+    (hinv : BInv L B (absB db r.js)) (hL : ∀ a ∈ opAddrs op, a ∈ L)
+    (hloc : StepOk db r op) (h : step db r op = some r') : BInv L B (absB db r'.js) := by
   cases op
   case load a =>
     simp only [step, Option.map_eq_some_iff] at h
@@ -254,10 +254,7 @@ theorem step_inv {db : Db} {L : List Addr} {B : Addr → Nat} {r r' : Run} {op :
     rw [e]
     have ha : a ∈ L := hL a (by simp [opAddrs])
     have ht : t ∈ L := hL t (by simp [opAddrs])
-    refine bSelfdestruct_inv hinv _ _ _ ha ht (fun hat => ?_)
-    have h2 := two_le_sumOver (absB db r.js).f hn ht ha (fun e => hat e.symm)
-    have h3 := hinv.ledger hn
-    omega
+    exact bSelfdestruct_inv hinv _ _ _ ha ht hloc
   case create caller a hs v spec =>
     simp only [step] at h
     split at h
@@ -266,7 +263,7 @@ theorem step_inv {db : Db} {L : List Addr} {B : Addr → Nat} {r r' : Run} {op :
       obtain ⟨c1, _, _⟩ := create_refines (db := db) h1
       obtain ⟨hlt, e⟩ := c1 rfl
       rw [e]
-      exact bCreateOk_inv hinv (hL caller (by simp [opAddrs])) (hL a (by simp [opAddrs])) hlt (Or.inr hf)
+      exact bCreateOk_inv hinv (hL caller (by simp [opAddrs])) (hL a (by simp [opAddrs])) hlt (Or.inr hloc)
     · rename_i js er h1
       cases h
       obtain ⟨_, c2, _⟩ := create_refines (db := db) h1
@@ -287,6 +284,39 @@ theorem step_inv {db : Db} {L : List Addr} {B : Addr → Nat} {r r' : Run} {op :
       obtain ⟨s1, h1, rfl⟩ := h
       rw [revert_refines h1]
       exact hinv.revert _
+    · cases h
+
+/-- a total that fits in 256 bits implies the local no-overflow condition -/
+theorem stepOk_of_total {db : Db} {L : List Addr} {B : Addr → Nat} {r : Run} {op : Op} (hn : L.Nodup)
+    (hB : sumOver L B < W) (hinv : BInv L B (absB db r.js)) (hL : ∀ a ∈ opAddrs op, a ∈ L)
+    (hf : Funded db r op) : StepOk db r op := by
+  cases op <;> try trivial
+  case selfdestruct a t =>
+    intro hat
+    have ha : a ∈ L := hL a (by simp [opAddrs])
+    have ht : t ∈ L := hL t (by simp [opAddrs])
+    have h2 := two_le_sumOver (bal db r.js) hn ht ha (fun e => hat e.symm)
+    have h3 := hinv.ledger hn
+    simp only [absB] at h3
+    omega
+
+theorem step_inv {db : Db} {L : List Addr} {B : Addr → Nat} {r r' : Run} {op : Op} (hn : L.Nodup)
+    (hB : sumOver L B < W) (hinv : BInv L B (absB db r.js)) (hL : ∀ a ∈ opAddrs op, a ∈ L)
+    (hf : Funded db r op) (h : step db r op = some r') : BInv L B (absB db r'.js) :=
+  step_inv_local hinv hL (stepOk_of_total hn hB hinv hL hf) h
+
+theorem run_inv_local {db : Db} {L : List Addr} {B : Addr → Nat} {ops : List Op} {r r' : Run}
+    (hinv : BInv L B (absB db r.js))
+    (hL : ∀ op ∈ ops, ∀ a ∈ opAddrs op, a ∈ L) (hf : StepOkRun db r ops) (h : run db r ops = some r') :
+    BInv L B (absB db r'.js) := by
+  induction ops generalizing r with
+  | nil => simp only [run] at h; cases h; exact hinv
+  | cons op ops ih =>
+    simp only [run] at h
+    split at h
+    · rename_i r1 h1
+      exact ih (step_inv_local hinv (hL op List.mem_cons_self) hf.1 h1)
+        (fun o ho => hL o (List.mem_cons_of_mem _ ho)) (hf.2 r1 h1) h
     · cases h
 
 theorem run_inv {db : Db} {L : List Addr} {B : Addr → Nat} {ops : List Op} {r r' : Run} (hn : L.Nodup)
